@@ -1008,8 +1008,8 @@ class ServerSSM(SSM):
 
         # some kind of problem
         if (apdu.apduType == AbortPDU.pduType):
+            # the client gave up, there is nothing to send back
             self.set_state(COMPLETED)
-            self.response(apdu)
             return
 
         # the only messages we should be getting are confirmed requests
@@ -1137,8 +1137,8 @@ class ServerSSM(SSM):
 
         # some kind of problem
         elif (apdu.apduType == AbortPDU.pduType):
+            # the client gave up, there is nothing to send back
             self.set_state(COMPLETED)
-            self.response(apdu)
 
         else:
             raise RuntimeError("invalid APDU (7)")
